@@ -3,11 +3,11 @@
    current Go sources on this very run (gen/Pure.v, module P, written by tools/srcgen/pure.go; None = panic).
    The account argument is only tested for nil (check.IfNil): it is modelled by the boolean "is nil"; the model's
    [compute_gas_remaining snd] of Ledger/Env.v takes the opposite flag "the account is present".
-   Only statements, each closed by [exact] of lemmas of Helpers/PureTie.v, LedgerProofs/EnvSpec.v and
+   Only statements, each closed by [exact] of lemmas of Helpers/PureTie_*.v, LedgerProofs/EnvSpec.v and
    LedgerProofs/GasSpec.v, and their assumptions. *)
 From Coq.Strings Require Import String.
 From EV Require Import Base.Bytes gen.Consts Base.GoSem gen.Pure Helpers.Helpers Ledger.Types Ledger.Env
-  LedgerProofs.EnvSpec LedgerProofs.GasSpec Helpers.PureTie.
+  LedgerProofs.EnvSpec LedgerProofs.GasSpec Helpers.PureTie_Base Helpers.PureTie_Gas.
 
 Local Open Scope N_scope.
 
